@@ -30,6 +30,9 @@ def run(chk):
 def replay(chk, path):
     import json
     rep = json.load(open(path))
+    if rep.get("family") == "reent_scenarios":     # harness/c12_reent.py: re-run the scenario on the current tree
+        import c12_reent
+        return c12_reent.replay_case(rep, path)
     if "script" in rep and "pool" in rep:          # a pooled_inner_scenarios case: re-run it on the current tree
         bad = _pooled_check(rep["operator"], rep["pool"], rep["script"], bool(rep.get("with_scheduler")))
         if bad:
@@ -634,5 +637,7 @@ def run(chk):
                         "index) and compares the indices it was handed with 0, 1, 2, ..., includes finished "
                         "concurrent.futures.Future objects as pool members, and subscribes half of the cases with a "
                         "sentinel scheduler object that every member subscription must receive")
+    import c12_reent
+    c12_reent.scenarios(chk)
     a, kw = holder["args"]
     return chk.finish(*a, **kw)
